@@ -101,7 +101,7 @@ struct Raster : Profile {
     std::vector<std::string> required_probes() const override
     {
         return {"partial-first-write", "strided-read", "legacy-rle", "legacy-read", "chunk-write", "chunk-read", "read-il-line", "read-il-component", "write-il-line",
-                "write-il-component", "fill-checked", "user-fill", "compressed", "chunked", "lut", "restart", "strided-write", "legacy-rle-rewrite"};
+                "write-il-component", "fill-checked", "user-fill", "compressed", "chunked", "lut", "restart", "strided-write", "legacy-rle-rewrite", "legacy-region-read"};
     }
 
     Plan generate(Rng &rng, bool thorough, uint64_t) override
@@ -437,6 +437,22 @@ struct Raster : Profile {
                                 L.comp ? "old RLE" : "uncompressed", j % (size_t)L.w, j / (size_t)L.w, buf[j], L.pix[j], when));
         if (buf[L.pix.size()] != 0x5A)
             s.ctx.fail("buffer-overrun", "buffer-overrun:legacy", "GRreadimage of a DFR8 image wrote beyond the image");
+        {
+            // ... and a part of it, sub-sampled: an old-style compressed image is decoded as a whole, regions come out of a buffer
+            int32 st[2] = {L.w / 3, L.h / 3}, sd[2] = {L.w > 4 ? 2 : 1, L.h > 4 ? 2 : 1};
+            int32 ct[2] = {(L.w - 1 - st[0]) / sd[0] + 1, (L.h - 1 - st[1]) / sd[1] + 1};
+            std::vector<uint8_t> part((size_t)ct[0] * (size_t)ct[1] + 8, 0x5A);
+            if (GRreadimage(ri, st, sd, ct, part.data()) == FAIL)
+                s.ctx.fail("read-refused", strf("read-refused:legacy-region:%s", L.comp ? "rle" : "plain"),
+                           strf("GRreadimage of a region (start %d,%d stride %d,%d count %d,%d) of the %dx%d DFR8 image failed (%s): %s", (int)st[0], (int)st[1], (int)sd[0], (int)sd[1],
+                                (int)ct[0], (int)ct[1], L.w, L.h, when, herr().c_str()));
+            for (int32 y = 0; y < ct[1]; y++)
+                for (int32 x = 0; x < ct[0]; x++)
+                    if (part[(size_t)y * (size_t)ct[0] + (size_t)x] != L.pix[(size_t)(st[1] + y * sd[1]) * (size_t)L.w + (size_t)(st[0] + x * sd[0])])
+                        s.ctx.fail("value-mismatch", strf("value-mismatch:legacy-region:%s", L.comp ? "rle" : "plain"),
+                                   strf("DFR8 image %dx%d read through GR, region: pixel (%d,%d) differs from the image (%s)", L.w, L.h, (int)(st[0] + x * sd[0]), (int)(st[1] + y * sd[1]), when));
+            s.ctx.probe("legacy-region-read");
+        }
         GRendaccess(ri);
         s.ctx.probe("legacy-read");
     }
